@@ -1,6 +1,7 @@
 package props
 
 import (
+	"encoding/binary"
 	"fmt"
 	"strconv"
 	"strings"
@@ -69,6 +70,31 @@ func c16Check(log []fakemc.Req, key string, wantValue []byte, flags uint32) stri
 	return ""
 }
 
+// putForeignItem stores value under key in the chunked layout with a per-chunk
+// payload of fp bytes, as a writer with other size constants would have.
+func putForeignItem(f *fakemc.Server, key string, value []byte, flags uint32, fp int) {
+	n := (len(value) + fp - 1) / fp
+	token := []byte("foreign-token-16")
+	meta := make([]byte, metaLen)
+	binary.BigEndian.PutUint32(meta[0:4], uint32(len(value)))
+	binary.BigEndian.PutUint32(meta[4:8], flags)
+	binary.BigEndian.PutUint32(meta[8:12], uint32(n))
+	binary.BigEndian.PutUint32(meta[12:16], uint32(fp))
+	binary.BigEndian.PutUint32(meta[16:20], uint32(nowUnix()))
+	copy(meta[24:40], token)
+	f.Put(key+"-meta", fakemc.Entry{Value: meta})
+	for i := 0; i < n; i++ {
+		chunk := make([]byte, tokenLen+fp)
+		copy(chunk, token)
+		end := (i + 1) * fp
+		if end > len(value) {
+			end = len(value)
+		}
+		copy(chunk[tokenLen:], value[i*fp:end])
+		f.Put(key+"-"+strconv.Itoa(i), fakemc.Entry{Value: chunk})
+	}
+}
+
 func TestC16(t *testing.T) {
 	rec := evid.For("C16")
 	shard, shards := evid.Shard()
@@ -90,8 +116,11 @@ func TestC16(t *testing.T) {
 		h, f := newChunked()
 		f.LogValues = true
 		for _, vl := range lens {
-			for _, path := range []string{"set", "add", "replace", "append", "prepend"} {
+			for _, path := range []string{"set", "add", "replace", "append", "prepend", "append-foreign", "prepend-foreign"} {
 				if vl > 20*p && path != "set" && path != "append" {
+					continue
+				}
+				if strings.HasSuffix(path, "-foreign") && (vl == 0 || vl > 3*p+1) {
 					continue
 				}
 				f.Reset()
@@ -134,6 +163,32 @@ func TestC16(t *testing.T) {
 					}
 					run(wire.Cmd{Kind: k, Key: key, Value: rest})
 					want = val
+				case "append-foreign", "prepend-foreign":
+					// the key already holds an item another writer stored with a different
+					// per-chunk payload (it reads back fine); what this handler writes on
+					// append/prepend must still follow the discipline for the key's length
+					cut := vl / 3
+					base, rest := val[:cut], val[cut:]
+					if path == "prepend-foreign" {
+						base, rest = val[vl-cut:], val[:vl-cut]
+					}
+					fp := p - 4
+					if kl%2 == 0 {
+						fp = p + 4
+					}
+					putForeignItem(f, key, base, flags, fp)
+					f.ResetLog()
+					k := wire.Append
+					if path == "prepend-foreign" {
+						k = wire.Prepend
+					}
+					res, _ := execHandler(h, wire.Cmd{Kind: k, Key: key, Value: rest}, 0)
+					if res.Err != nil {
+						// the handler does not accept the foreign item: nothing written, nothing to judge
+						rec.Class("foreign-layout-item-not-accepted")
+						continue
+					}
+					want = val
 				}
 				ops++
 				msg := c16Check(f.Log(), key, want, flags)
@@ -153,7 +208,7 @@ func TestC16(t *testing.T) {
 		}
 		h.Close()
 	}
-	rec.MarkExhaustive("key lengths 1..250 x value lengths {0,1,p-1,p,p+1,2p-1,2p,2p+1,3p+1,10p} (+ {998p+1,999p-1,999p} for key lengths 1,2,125,249,250) x paths set/add/replace/append/prepend")
+	rec.MarkExhaustive("key lengths 1..250 x value lengths {0,1,p-1,p,p+1,2p-1,2p,2p+1,3p+1,10p} (+ {998p+1,999p-1,999p} for key lengths 1,2,125,249,250) x paths set/add/replace/append/prepend (+ append/prepend onto an item stored by another writer with a per-chunk payload 4 bytes off, value lengths <= 3p+1)")
 }
 
 // TestC16Replay re-runs one (keylen, valuelen, path) case.
